@@ -15,7 +15,7 @@ POS = ('Ok', 'OkUpdateDeferred')
 
 NEED = {'invalid', 'throttled-request', 'started-request', 'already-running-check', 'already-running-reboot', 'scheduled-check',
         'reboot', 'ondemand-upgrade', 'minimum-wait', 'report-ok', 'report-skipped'}
-PLAN_LABELS = {'quick': ['requests-no-reboot', 'requests-reboot-wait', 'two-iterations-no-requests-no-reboot', 'reboot-wait-two-rounds', 'startup-report-two-iterations'],
+PLAN_LABELS = {'quick': ['requests-no-reboot', 'requests-reboot-wait', 'two-iterations-no-requests-no-reboot', 'reboot-wait-two-rounds', 'requested-check-then-request-in-reboot-wait', 'startup-report-two-iterations'],
                'thorough': ['two-requests-no-reboot', 'two-requests-reboot-wait', 'two-iterations-one-request']}
 
 
@@ -72,6 +72,11 @@ def decode(ex, st):
             y = decode_yield(ex, st, e)
             s = Step(i, e, 'yield', y[0] + ('(%s)' % y[1] if y[1] else ''))
             s.info['value'] = y[2]
+            out.append(s)
+            continue
+        if e.kind == 'susp':
+            s = Step(i, e, 'susp', 'suspend')
+            s.info['ctl_polled'] = e.args[0] > 0
             out.append(s)
             continue
         if e.kind != 'env':
@@ -157,12 +162,24 @@ def monitor_run(chk, tier):
         if name.endswith('Timer>::wait_until'):
             return 'pend'
         return 'both'
+    def requested_check_policy(st, name, key):
+        """as reboot_wait_policy, but the first wait is ended by a request, never by its timers: the check is a
+        requested one (so its options may already be on-demand when a second request arrives in the reboot wait)"""
+        in_reboot = any(e.kind == 'env' and e.name.endswith('::reboot_allowed') for e in st.trace)
+        if name == 'start_update_check':
+            return 'fire'
+        if not in_reboot:
+            return 'pend'
+        if name.endswith('Timer>::wait_until'):
+            return 'pend'
+        return 'both'
     # several explorations, each symbolic in one group of dimensions (the others fixed as stated)
     plans = [
         dict(label='requests-no-reboot', nctl=1, unroll=1, assume=with_reboot(False, finish_time=False), max_paths=20000),
         dict(label='requests-reboot-wait', nctl=1, unroll=1, assume=with_reboot(True, finish_time=False), max_paths=20000),
         dict(label='two-iterations-no-requests-no-reboot', nctl=0, unroll=2, assume=with_reboot(False, finish_time=False), max_paths=20000, polls=4),
         dict(label='reboot-wait-two-rounds', nctl=1, unroll=2, iters=1, assume=with_reboot(True, finish_time=False, plain_timing=True), max_paths=40000, polls=3, max_pending=0, pend_policy=reboot_wait_policy),
+        dict(label='requested-check-then-request-in-reboot-wait', nctl=2, unroll=2, iters=1, assume=with_reboot(True, finish_time=False, plain_timing=True), max_paths=40000, polls=3, max_pending=0, pend_policy=requested_check_policy),
         dict(label='startup-report-two-iterations', nctl=0, unroll=2, assume=with_reboot(False, negative=True), max_paths=20000, max_pending=0),
     ]
     if tier == 'thorough':
@@ -300,6 +317,11 @@ def check_path(ex, st, steps, Ds, cover):
                         if dval(ex, st, ex.discr_of(st, mw).t) != 1 or not ex.veq(s.info['arg'], payload(ex, st, mw, 1, 0, 'std::time::Duration')):
                             bad('timers-follow-policy', 'the minimum-wait timer is not armed with the policy\'s minimum wait')
                         cover.add('minimum-wait')
+        elif nm == 'suspend':
+            # whenever the machine goes to sleep while waiting (for the next check, or to reboot) or while a
+            # check runs, it must be listening to the control channel: a request arriving now wakes it
+            if not s.info['ctl_polled'] and k > 0 and any(x.name == 'compute_next_update_time' for x in steps[:k]):
+                bad('one-truthful-reply', 'the machine suspended without listening to the control channel (a request arriving now would get no reply until a timer fires); last steps %s' % [x.name for x in steps[max(0, k - 4):k]])
         elif nm == 'control-request':
             if pending_req is not None:
                 bad('one-truthful-reply', 'a second request was taken before the first was answered')
@@ -326,6 +348,16 @@ def check_path(ex, st, steps, Ds, cover):
                 cover.add('already-running-check' if mode == 'check' else 'already-running-reboot')
             if want and s.info['value'] != want:
                 bad('one-truthful-reply', 'reply %s, expected %s (machine was %s)' % (s.info['value'], want, mode))
+            if mode == 'reboot':
+                # an on-demand request during the reboot wait makes the machine ask at once whether it may
+                # reboot now (whatever the options were before)
+                nxt = steps[k + 1] if k + 1 < n else None
+                # ... a question that the 30-minute timer caused (it fired right before it) is not that one
+                by_timer = nxt is not None and nxt.name == 'reboot_allowed' and thirty is not None and thirty.info['fired'] \
+                    and thirty.info['firedat'] is not None and s.i < thirty.info['firedat'] <= nxt.i
+                if nxt is not None and (nxt.name != 'reboot_allowed' or by_timer):
+                    Ds['one-truthful-reply'].require(st, z3.Not(opts_source_is_ondemand(ex, st, pending_req.info['options'])),
+                                                     'an on-demand request during the reboot wait is followed by the reboot question')
             pending_req = None
         elif nm == 'update_check_allowed':
             last_allowed = s
